@@ -9,7 +9,7 @@
      aborts on mismatch, appends the received Finished message, and answers
        fin2 = F secret2' (H (transcript' ++ fin_msg fin1_received));
      the first side compares with F secret2 (H (transcript ++ fin_msg fin1)) and aborts on mismatch;
-   - each driver returns 1 only at its very end, after a fixed list of guards.
+   - each driver returns 1 only at its very end, after a fixed list of guards (Tls/GuardSites.v).
 
    [F] is tls_prf(master, "client finished" / "server finished", hash, 12) resp.
    tls13_compute_verify_data; [H] is SM3.  The adversary controls everything on the wire: the
@@ -38,35 +38,4 @@ Section Finished.
     F2 (sec2 b) (H (transcript b ++ fin_msg fin1_recv)).
 End Finished.
 
-(* ---- guards on the path to "return 1" (C09) ----
-   The checks each driver performs before it can reach ret = 1, in source order; [true] = the
-   check passed.  The drivers are straight-line: any failed check jumps to `end` with ret = -1. *)
-Record client_checks := mk_cc {
-  cc_anchors : bool;            (* a trust store is configured (conn->ca_certs_len != 0) *)
-  cc_server_hello : bool;       (* ServerHello parses, version / suite acceptable *)
-  cc_chain : bool;              (* x509_certs_verify[_tlcp](server chain, anchors) = 1 *)
-  cc_sig : bool;                (* signature over randoms||params (TLS 1.2), randoms||enc cert (TLCP),
-                                   CertificateVerify over the transcript (TLS 1.3) verifies under the leaf key *)
-  cc_rest : bool;               (* remaining parsing / sending steps *)
-  cc_finished : bool            (* peer Finished equals the locally computed verify_data *)
-}.
-(* tlcp_do_connect: the chain check is skipped when no trust store is configured *)
-Definition tlcp_client_done (c : client_checks) : bool :=
-  cc_server_hello c && (if cc_anchors c then cc_chain c else true) && cc_sig c && cc_rest c && cc_finished c.
-(* tls12_do_connect / tls13_do_connect: x509_certs_verify is called unconditionally *)
-Definition tls_client_done (c : client_checks) : bool :=
-  cc_server_hello c && cc_chain c && cc_sig c && cc_rest c && cc_finished c.
-
-Record server_checks := mk_sc {
-  sc_client_auth : bool;        (* conn->ca_certs_len != 0: CertificateRequest is sent *)
-  sc_client_hello : bool;
-  sc_cert_present : bool;       (* a Certificate message with a non-empty list was received *)
-  sc_chain : bool;              (* x509_certs_verify(client chain, anchors) = 1 *)
-  sc_cert_verify : bool;        (* CertificateVerify over the transcript verifies under the client leaf key *)
-  sc_rest : bool;
-  sc_finished : bool
-}.
-Definition server_done (s : server_checks) : bool :=
-  sc_client_hello s &&
-  (if sc_client_auth s then sc_cert_present s && sc_chain s && sc_cert_verify s else true) &&
-  sc_rest s && sc_finished s.
+(* The guards on the path to `return 1` (C09) are in Tls/GuardSites.v. *)
